@@ -42,6 +42,18 @@ def run(ctx, replay):
         rec = dict(kind=kind, msm7=(e["raw"][3] * 16 + e["raw"][4] // 16) % 10 == 7, padded=e["pad"] > 0, path=e["path"],
                    last_cell_zero=e["cls"].endswith("/zero") or e["cls"].endswith("/min") and False)
         ctx.violation(rec, dict(event=e))
+    # the same cases in a 32-bit build of the library (int and uint are 32 bits wide there)
+    # and as a static binary in an empty root directory (no time zone database, no environment)
+    variants = [] if replay else [("GOARCH=386", ctx.trace_32bit(["c04"], trace)), ("static binary in an empty root directory", ctx.trace_bare(["c04"], trace))]
+    for build, tv in variants:
+        if not tv:
+            continue
+        evv = vlib.read_ndjson(tv)
+        resv = ctx.tlc_trace("C04_Trace", "C04_Trace.cfg", tv, timeout=1700)
+        ctx.traces += 1
+        for i in resv["bad"]:
+            e = evv[i - 1]
+            ctx.violation(dict(kind="other-build-or-environment", path=e["path"], cls=e["cls"]), dict(event=e, build=build))
     return ctx.finish(
         level="model_checking",
         rule="one case = (frame, path decoder|handler); frames produced by the harness encoder over 14 types x mask shapes {empty, 1xN, Nx1 up to 64x1, "
